@@ -64,7 +64,36 @@ CLAIM = dict(
           "/ small, methods default / oc); every run is judged by the same Lean delivery oracle on ALL keys its nets match; "
           "a failing run is re-run alone in a fresh interpreter - if it fails alone it is an ordinary finding, if it "
           "passes alone the finding is history-dependent (state the library kept between calls) and the replay is the "
-          "sequence, confirmed in a fresh interpreter and reduced to the runs needed."),
+          "sequence, confirmed in a fresh interpreter and reduced to the runs needed; (d) HISTORIES of 3-7 calls by ONE "
+          "caller in one process, the rig modules re-imported at the start of each history (so the replay of a history in a "
+          "new process sees what the run saw): the same call repeated with the same objects; TWINS (equal in all but one "
+          "aspect: a net, a sink, the fault map, a vertex's cores, a busy core, the key assignment, one option) in both "
+          "orders; two applications / machines alternately, each with its own objects; the caller EDITING IN PLACE every "
+          "mutable object it passed (vertices_resources and its inner dicts, the nets list, Net.source / sinks / weight, "
+          "net_keys, the constraint lists, Machine attributes and its sets / dicts, the SystemInfo) into a twin and calling "
+          "again; the caller SCRIBBLING on everything it was handed back (tables, entries' source sets, routing trees' "
+          "children, allocations and their inner dicts, placements) before calling again; the caller KEEPING earlier "
+          "results and looking at them again after later calls (a kept result that changed is re-judged by the delivery "
+          "oracle as it is now); stage callables that FAIL once (place / allocate / route / a minimisation method) followed "
+          "by continued use of the same objects; every run of a history is judged by the Lean delivery oracle, a failing "
+          "run is re-run alone in a fresh interpreter, the replay of a history-dependent finding is the history; (e) "
+          "ARGUMENT KINDS and ENVIRONMENT in streams (a), (b), (d): vertices as int, big int, str with format characters, "
+          "tuple (len 0-3), namedtuple, frozenset, plain object, mixed; resource identifiers as str / tuple / object with "
+          "format characters; instances of subclasses of Machine, Net, the four constraint classes and RoutingTableEntry; "
+          "list subclass for sinks, tuple for same-chip groups, frozenset for dead chips / links, OrderedDict / defaultdict "
+          "for net_keys / tables / target lengths; SDRAM quantities around 2**31 .. 2**100 (capacity, reservation, "
+          "allocation positions), net weight 2**100, radius True / 1000 / omitted; optional arguments omitted when at "
+          "their default, stages and minimise_tables called by keyword; busy cores in every non-idle AppState, SDRAM / SRAM "
+          "/ cores / router entries / links differing between the chips of one machine; (f) SCALE: per run 3 (12) cases far "
+          "beyond the usual size - machines 1xN / Nx1 / 2xN with N = 1500..4000 as mesh or torus (trees deeper than the "
+          "interpreter's recursion limit), the same with dead links near one end so that the dead-link repair handles "
+          "subtrees as deep as the machine is long, 420 vertices with nets of 257 / 300 sinks, 257-400 nets through one "
+          "chip - and the three empty cases (no vertices, no nets, nets without sinks), judged by the delivery oracle; (g) "
+          "every call of the implementation runs under a CPU limit (~100x the largest ordinary call: 10 s, 60 s with the "
+          "Python annealer, 120 s for scale cases; 3 / 10 s once two calls did not return): a pipeline that does not return "
+          "is the finding `did-not-return` where the stage models are proved to terminate (seqPlace_terminates, "
+          "alloc_only_failure, route_only_failure, tables_total, minimiseTable_total), a broken correspondence inside the "
+          "annealer / RCM / random placer (no termination theorem)."),
     design="3/C01",
     note=("PROVED: everything about the model pipeline stated above, for all inputs in the domain. Domain restrictions "
           "of the capstone, all named hypotheses (Rig.C01Pipe.Domain / PlacerDomain) and all kept by the generators "
@@ -86,7 +115,24 @@ CLAIM = dict(
           "nothing about rig_c_sa (opaque C kernel: judged by the oracle only) or about place_and_route_wrapper's "
           "derivation of machine and constraints from SystemInfo (that is C14's probe_to_machine_exact; here both wrappers "
           "are exercised by the oracle stream only). A packet returning to a chip already on its path counts as "
-          "circulating."),
+          "circulating. CHECKLIST ITEMS NOT APPLICABLE / LEFT AT THE DEFAULT (and why): `nets` and `constraints` as "
+          "tuples - documented as lists, rig copies them with [:] and assigns items (tuples fail as soon as a "
+          "SameChipConstraint exists); Net(sinks=tuple) - documented: a non-list is ONE vertex; one-shot iterators for "
+          "nets / constraints - every stage iterates them again (vertex_order / chip_order iterators are used); numpy ints, "
+          "bytes / bytearray / memoryview - no byte string and no place where rig itself passes numpy ints in scope; keys "
+          "and masks beyond 32 bits - the property is about 32-bit keys; route(allocations=) left out (default {}) - every "
+          "sink then legitimately gets no core route, the property presupposes the allocations were given; "
+          "has_wrap_around_links(minimum_working), ner_net / a_star / copy_and_disconnect_tree arguments, minimise_table, "
+          "ordered_covering(aliases, no_raise), remove_default_routes.minimise(check_for_aliases) - reached only through "
+          "route() / minimise_tables() with the values those pass (C03 / C04 vary them directly); lazily consumed results "
+          "(5d) - the pipeline returns dicts and lists, RoutingTree.traverse is C10's; anything counted in 8 or 16 bits - "
+          "nothing in scope is (keys 32 bit, routes 24 bit, router entries 1024: more than 1024 entries on a chip is the "
+          "documented MinimisationFailedError, exercised by the many-nets scale case through targets); resource amounts "
+          "beyond 2**31 with the C annealing kernel - rig_c_sa keeps them in 32-bit ints and raises OverflowError "
+          "(reported, kept out of the generator: not this property); an on_temperature_change callback that raises - the "
+          "callback faults are injected at the stage callables. NOT DEMANDED (tagged only): that repeating a call gives the "
+          "same placement; that a failed call leaves the caller's Machine untouched (the next run with the same objects is "
+          "judged like any other)."),
     technique="Lean 4 theorems over a hand-written model + differential correspondence + Lean spec as oracle")
 
 THEOREMS = ["deliveredB_iff", "delivered_no_flag", "deliver_of_tree", "deliver_of_tree_root", "deliver_congr",
@@ -122,10 +168,23 @@ RULE = ("pipelines on machines 1x1..8x8 (quick) / ..24x24 (thorough), torus / me
         "at one source chip), keys = non-intersecting blocks of 1-8 keys + 0-2 partly used blocks + 1-3 key/masks taken "
         "from the merges of earlier runs (60%: with a straddling pair of single keys beside them); with probability 0.5 "
         "a run re-uses the previous application and machine under a new key assignment; all keys of every net are "
-        "injected")
+        "injected. History stream: 30 (quick) / 300 (thorough) histories, problems from the ordinary generator on machines "
+        "1x1..6x4 cut to 12 nets, 40% through the SystemInfo entry points, kinds {repeat, twins x2, edit-passed x2 (walk of "
+        "4-7 runs between the application and two twins), scribble, keep, alternate, fault}, twin aspects {net-drop, "
+        "sink-add, sink-drop, dead-link x3 (one link, or 15% of all links), cores, option, swap-keys, busy-core}. Scale "
+        "stream: 3 (quick) / 12 (thorough) cases + the 3 empty cases. Argument kinds / environment: drawn independently "
+        "per problem (vertex kind 9 ways, subclasses 30%, collection variant 4 ways, big SDRAM 6 of 10 sizes 40%, non-idle "
+        "states 50%, per-chip memory 40%, omitted defaults 40%, big weight 15%, radius from {0, 1, 2, 20, True, 1000, "
+        "omitted})")
 
 PLACERS = ["sa-python", "sa-c", "hilbert", "rcm", "breadth_first", "sequential", "rand"]
-RADII = [0, 1, 2, 20]
+RADII = [0, 1, 2, 20, True, 1000, None]      # True: a bool is an int; None: the argument is omitted (default 20)
+
+
+def radius_value(r):
+    """the radius the router uses"""
+    return 20 if r is None else int(r)
+
 METHODS = {"default": ["rd", "oc"], "rd": ["rd"], "oc": ["oc"], "none": []}
 TARGETS = [None, 0, "small", "exact", "large"]
 APIS = ["manual", "manual", "manual-sysinfo", "wrapper", "deprecated"]
@@ -320,7 +379,25 @@ def gen_extras(rng):
                 apps=rng.random() < 0.5,                 # non-empty vertices_applications
                 route_call=rng.choice(["pos", "kw", "omit"]),        # how the hand-chained caller names core_resource
                 tables_api=rng.choice(["rt2t", "rt2t", "rt2t", "brt", "brt-keep"]),   # deprecated build_routing_tables
-                methods_tuple=rng.random() < 0.5, kwargs_style=rng.choice(["dict", "none"]))
+                methods_tuple=rng.random() < 0.5, kwargs_style=rng.choice(["dict", "none"]),
+                **gen_kinds(rng))
+
+
+VKINDS = ["int", "int", "str", "tuple", "namedtuple", "frozenset", "obj", "bigint", "mixed"]
+
+
+def gen_kinds(rng):
+    """the KINDS of the arguments (checklist: every argument in every kind the API legally accepts) and the
+    environment parameters every earlier generator fixed"""
+    return dict(
+        vkind=rng.choice(VKINDS),                  # what a vertex is: any hashable
+        subclass=rng.random() < 0.3,               # instances of subclasses of rig's Machine / Net / constraints / entries
+        coll=rng.randrange(4),                     # tuples / frozensets / OrderedDict / defaultdict where a collection goes
+        big=rng.choice([None, None, None, None, 31, 32, 53, 63, 64, 100]),   # SDRAM quantities around 2**big
+        states=rng.random() < 0.5,                 # busy cores in every non-idle AppState, not only `run`
+        memvar=rng.random() < 0.4,                 # SDRAM / SRAM differ between the chips of one machine
+        omit=rng.random() < 0.4,                   # optional arguments at their default are not passed at all
+        big_weight=rng.random() < 0.15)
 
 
 def gen_cfg(rng, i=None):
@@ -329,6 +406,9 @@ def gen_cfg(rng, i=None):
                target=rng.choice(TARGETS + [None, None, "large", "large"]), target_dict=rng.random() < 0.5,
                api=rng.choice(APIS))
     cfg.update(gen_extras(rng))
+    if cfg["placer"] == "sa-c":
+        # the C kernel keeps resource amounts in 32-bit ints (OverflowError beyond; reported, outside this property)
+        cfg["big"] = None
     return cfg
 
 
@@ -352,9 +432,9 @@ def res_ids(prob):
         if r is None:
             out.append(dflt)
         elif r[0] == "str":
-            out.append(str(r[1]))
+            out.append(str(r[1]) + " %s {} {0}")       # format characters: identifiers end up in error messages
         elif r[0] == "tuple":
-            out.append(("resource", str(r[1])))
+            out.append(("resource", str(r[1]), "%d"))
         else:
             out.append(ResId(r[1]))
     return tuple(out)
@@ -363,6 +443,84 @@ def res_ids(prob):
 # --------------------------------------------------------------------------------------------
 # python objects
 # --------------------------------------------------------------------------------------------
+class VObj(object):
+    """a vertex that is a plain object (hashable by identity)"""
+
+    def __init__(self, n):
+        self.n = n
+
+    def __repr__(self):
+        return "<vertex %d>" % self.n
+
+
+def vertex_objects(prob):
+    """int vertex of the problem description -> the hashable object the caller uses as that vertex"""
+    import collections
+    kind = prob["cfg"].get("vkind") or "int"
+    VT = collections.namedtuple("VT", "index label")
+    kinds = ["str", "tuple", "namedtuple", "frozenset", "obj", "bigint", "int"]
+    out = {}
+    for v, _, _ in prob["vr"]:
+        k = kinds[v % len(kinds)] if kind == "mixed" else kind
+        if k == "str":
+            out[v] = "v%d %%s {} {0} %%" % v
+        elif k == "tuple":
+            out[v] = [(), (v,), ("v", v), ("a", v, "{}%s")][v % 4] if v else ()
+            if v and out[v] == ():
+                out[v] = (v, v)
+        elif k == "namedtuple":
+            out[v] = VT(v, "x")
+        elif k == "frozenset":
+            out[v] = frozenset([v, "v"])
+        elif k == "obj":
+            out[v] = VObj(v)
+        elif k == "bigint":
+            out[v] = v + [1 << 31, 1 << 32, (1 << 53) + 1, 1 << 63, 1 << 64, 1 << 100][v % 6]
+        else:
+            out[v] = v
+    return out
+
+
+_SUBCLASSES = {}
+
+
+def subclasses():
+    """trivial subclasses of rig's own classes (re-made when the rig modules were reloaded)"""
+    from rig.place_and_route import Machine
+    from rig.place_and_route.constraints import (LocationConstraint, SameChipConstraint, ReserveResourceConstraint,
+                                                 RouteEndpointConstraint)
+    from rig.netlist import Net
+    from rig.routing_table import RoutingTableEntry
+    if _SUBCLASSES.get("base") is not Machine:
+        _SUBCLASSES.clear()
+        _SUBCLASSES["base"] = Machine
+        for name, base in (("Machine", Machine), ("Net", Net), ("Loc", LocationConstraint), ("Same", SameChipConstraint),
+                           ("Res", ReserveResourceConstraint), ("Ep", RouteEndpointConstraint),
+                           ("RTE", RoutingTableEntry)):
+            _SUBCLASSES[name] = type("My" + base.__name__, (base,), {"__slots__": ()} if name == "RTE" else {})
+    return _SUBCLASSES
+
+
+class SinkList(list):
+    """a list subclass (Net copies `sinks` when it is a list)"""
+
+
+def chip_memory(prob):
+    """(x, y) -> (sdram, sram) of the chip; with `memvar` the chips of one machine differ"""
+    base = prob["sdram"]
+    big = prob["cfg"].get("big")
+    if big:
+        base += (1 << big) + (1 if big == 53 else 0)
+    out = {}
+    r = _random.Random(prob["seed"] ^ 0x2545f)
+    for c in sorted(cores_map(prob)):
+        if prob["cfg"].get("memvar") and r.random() < 0.5:
+            out[c] = (base + r.choice([-prob["sdram"] // 2, 1000000, 4, 0]), r.choice([0, 5, 1000, 1 << 20]))
+        else:
+            out[c] = (base, 1000)
+    return out
+
+
 def busy_map(prob):
     return {(x, y): list(b) for x, y, b in prob["busy"]}
 
@@ -383,11 +541,15 @@ def build_sysinfo(prob):
     busy = busy_map(prob)
     rtr = {(x, y): k for x, y, k in prob["rtr_exc"]}
     chips = {}
+    mem = chip_memory(prob)
+    nonidle = [st for st in AppState if st != AppState.idle]
+    r = _random.Random(prob["seed"] ^ 0x51f15)
     for (x, y), k in cores_map(prob).items():
-        states = [AppState.run if i in busy.get((x, y), ()) else AppState.idle for i in range(k)]
+        states = [(r.choice(nonidle) if prob["cfg"].get("states") else AppState.run)
+                  if i in busy.get((x, y), ()) else AppState.idle for i in range(k)]
         chips[(x, y)] = ChipInfo(num_cores=k, core_states=states,
                                  working_links=set(Links(l) for l in range(6) if (x, y, l) not in dl),
-                                 largest_free_sdram_block=prob["sdram"], largest_free_sram_block=1000,
+                                 largest_free_sdram_block=mem[(x, y)][0], largest_free_sram_block=mem[(x, y)][1],
                                  largest_free_rtr_mc_block=rtr.get((x, y), prob["rtr"]),
                                  ethernet_up=(x, y) == (0, 0), ip_address="127.0.0.1", local_ethernet_chip=(0, 0))
     return SystemInfo(prob["w"], prob["h"], chips)
@@ -403,8 +565,9 @@ def runs_of(cores):
     return out
 
 
-def build(prob):
-    """-> dict of python objects for the implementation"""
+def build(prob, reuse=None):
+    """-> dict of python objects for the implementation; `reuse` = objects of an earlier build whose resource
+    identifiers and vertex objects are to be used again (the same caller maps a second application)"""
     from rig.place_and_route import Machine
     from rig.place_and_route.constraints import (LocationConstraint, SameChipConstraint, ReserveResourceConstraint,
                                                  RouteEndpointConstraint)
@@ -412,8 +575,21 @@ def build(prob):
     from rig.links import Links
     from rig.netlist import Net
     import collections
-    api = prob["cfg"]["api"]
-    Cores, SDRAM, SRAM = ids = res_ids(prob)      # the identifiers the caller names (default or application-defined)
+    cfg = prob["cfg"]
+    api = cfg["api"]
+    coll = cfg.get("coll") or 0
+    if cfg.get("subclass"):
+        sub = subclasses()
+        Machine, Net = sub["Machine"], sub["Net"]
+        LocationConstraint, SameChipConstraint = sub["Loc"], sub["Same"]
+        ReserveResourceConstraint, RouteEndpointConstraint = sub["Res"], sub["Ep"]
+    # the identifiers the caller names (default or application-defined)
+    Cores, SDRAM, SRAM = ids = reuse["ids"] if reuse else res_ids(prob)
+    V = vertex_objects(prob)
+    if reuse:
+        for v in V:
+            if v in reuse["V"]:
+                V[v] = reuse["V"][v]
     vr = collections.OrderedDict()
     for v, k, sd in prob["vr"]:
         d = {}
@@ -421,28 +597,35 @@ def build(prob):
             d[Cores] = k
         if sd:
             d[SDRAM] = sd
-        vr[v] = d
-    nets = [Net(s, list(k), wt) for s, k, wt, _, _ in prob["nets"]]
-    net_keys = {n: (p[3], p[4]) for n, p in zip(nets, prob["nets"])}
+        vr[V[v]] = d
+    wbig = (1 << 100) if cfg.get("big_weight") else None
+    nets = [Net(V[s], (SinkList if coll == 1 else list)(V[x] for x in k), wbig if (wbig and wt) else wt)
+            for s, k, wt, _, _ in prob["nets"]]
+    net_keys = (collections.OrderedDict if coll == 2 else dict)((n, (p[3], p[4])) for n, p in zip(nets, prob["nets"]))
     cs = []
     for v, x, y, l in prob["devices"]:
-        cs.append(LocationConstraint(v, (x, y)))
-        cs.append(RouteEndpointConstraint(v, Routes(l)))
+        cs.append(LocationConstraint(V[v], (x, y)))
+        cs.append(RouteEndpointConstraint(V[v], Routes(l)))
     for c in prob["cs"]:
         if c["t"] == "loc":
-            cs.append(LocationConstraint(c["v"], tuple(c["c"])))
+            cs.append(LocationConstraint(V[c["v"]], tuple(c["c"])))
         else:
-            cs.append(SameChipConstraint(list(c["vs"])))
-    o = dict(vr=vr, nets=nets, net_keys=net_keys, user_cs=cs, sysinfo=build_sysinfo(prob), ids=ids,
-             apps=({v: "app%d.aplx" % (v % 3) for v in vr} if prob["cfg"].get("apps") else {}))
+            cs.append(SameChipConstraint((tuple if coll == 3 else list)(V[x] for x in c["vs"])))
+    o = dict(vr=vr, nets=nets, net_keys=net_keys, user_cs=cs, sysinfo=build_sysinfo(prob), ids=ids, V=V,
+             Vinv={obj: v for v, obj in V.items()},
+             apps=({V[v]: "app%d.aplx" % (v % 3) for v, _, _ in prob["vr"]} if cfg.get("apps") else {}))
     if api in ("manual", "deprecated"):
         cm = cores_map(prob)
+        mem = chip_memory(prob)
+        dflt = mem[min(mem)] if mem else (prob["sdram"], 1000)
+        big = cfg.get("big")
         o["machine"] = Machine(prob["w"], prob["h"],
-                               chip_resources={Cores: prob["ncores"], SDRAM: prob["sdram"], SRAM: 1000},
-                               chip_resource_exceptions={c: {Cores: k, SDRAM: prob["sdram"], SRAM: 1000}
-                                                         for c, k in cm.items() if k != prob["ncores"]},
-                               dead_chips=set(map(tuple, prob["dead_chips"])),
-                               dead_links=set((x, y, Links(l)) for x, y, l in prob["dead_links"]))
+                               chip_resources={Cores: prob["ncores"], SDRAM: dflt[0], SRAM: dflt[1]},
+                               chip_resource_exceptions={c: {Cores: k, SDRAM: mem[c][0], SRAM: mem[c][1]}
+                                                         for c, k in cm.items() if k != prob["ncores"] or mem[c] != dflt},
+                               dead_chips=(frozenset if coll == 3 else set)(map(tuple, prob["dead_chips"])),
+                               dead_links=(frozenset if coll == 3 else set)(
+                                   (x, y, Links(l)) for x, y, l in prob["dead_links"]))
         res = []
         busy = busy_map(prob)
         # the deprecated wrapper reserves core 0 itself (unless told not to: reserve_monitor=False)
@@ -453,11 +636,14 @@ def build(prob):
         for c, b in busy.items():
             for a, e in runs_of([i for i in b if not (glob0 and i == 0)]):
                 res.append(ReserveResourceConstraint(Cores, slice(a, e), c))
+        if big:
+            # everything below 2**big is in use: the allocator works with positions beyond it
+            res.append(ReserveResourceConstraint(SDRAM, slice(0, (1 << big) + (1 if big == 53 else 0))))
         o["cs"] = res + cs
     return o
 
 
-def placer_call(name, seed, prob=None):
+def placer_call(name, seed, prob=None, V=None):
     """-> (function, kwargs); `pvar` of the configuration selects the optional arguments of the placer"""
     from rig.place_and_route.place import sequential, breadth_first, hilbert, rcm, rand
     from rig.place_and_route.place.sa import algorithm as sa
@@ -476,7 +662,7 @@ def placer_call(name, seed, prob=None):
     if name == "sequential":
         kw = {}
         if pvar in (1, 3):
-            vo = [v for v, _, _ in prob["vr"]]
+            vo = [V[v] if V else v for v, _, _ in prob["vr"]]
             if pvar == 1:
                 vo.reverse()
             else:
@@ -520,8 +706,27 @@ def target_for(cfg, n):
     return {"small": max(1, n // 2), "exact": n, "large": n + 10}[t]
 
 
-def run_pipeline(prob):
+class InjectedFault(Exception):
+    """raised by a stage callable of the harness (a caller's callback may fail)"""
+
+
+_HANGS = [0]
+
+
+def cpu_budget(prob):
+    """CPU seconds one pipeline run may use: ~100x what the largest ordinary case needs; 3 s (annealer: 10 s) once
+    two calls have not returned in this run"""
+    # ordinary cases: <= 0.13 s (the Python annealer: <= 1.7 s); scale cases: <= 1 s
+    slow = prob["cfg"].get("placer") == "sa-python"
+    if _HANGS[0] >= 2:
+        return 10 if slow else 3
+    return 120 if prob.get("scale") else (60 if slow else 10)
+
+
+def run_pipeline(prob, o=None, fail_at=None):
     """run the real pipeline; -> dict(status, placements, allocations, routes, tables0, tables1, targets, methods)
+    `o`: python objects to use (a caller calling again with the objects it already has); `fail_at`: the stage whose
+    callable raises InjectedFault (once) instead of running.
 
     The caller's view of the public interface is exercised as a user may legally use it: the three resource
     identifiers are rig's defaults or application-defined objects (passed to the wrappers / to build_machine,
@@ -535,35 +740,53 @@ def run_pipeline(prob):
     import rig.geometry as geometry
     from rig.place_and_route.route import utils as rutils
     import warnings
+    import collections
+    from . import common
     cfg = prob["cfg"]
-    o = build(prob)
+    if o is None:
+        o = build(prob)
     core_id, sdram_id, sram_id = o["ids"]
     custom = {"cores": core_id is not pr.Cores, "sdram": sdram_id is not pr.SDRAM, "sram": sram_id is not pr.SRAM}
+    coll = cfg.get("coll") or 0
+    omit = bool(cfg.get("omit"))
     _random.seed(prob["seed"])          # geometry.py / route/utils.py draw from the global generator
     orig_random = (geometry.random, rutils.random)
     if prob.get("c03_rseed") is not None:
         # the tie-provoking stand-in of the C03 harness (module attribute, no source change)
         geometry.random = rutils.random = c03.FakeRandom(prob["c03_rseed"], [])
-    place, pkw = placer_call(cfg["placer"], prob["seed"] ^ 0x5bd1, prob)
+    place, pkw = placer_call(cfg["placer"], prob["seed"] ^ 0x5bd1, prob, o["V"])
     rec = {}
 
     # custom stage callables: transparent pass-through (no assumption on how the wrapper calls them)
     def rec_place(*a, **kw):
+        if fail_at == "place":
+            raise InjectedFault("place")
         rec["placements"] = place(*a, **kw)
         return rec["placements"]
 
     def rec_alloc(*a, **kw):
+        if fail_at == "allocate":
+            raise InjectedFault("allocate")
         rec["allocations"] = pr.allocate(*a, **kw)
         return rec["allocations"]
 
     def rec_route(*a, **kw):
+        if fail_at == "route":
+            raise InjectedFault("route")
         rec["routes"] = pr.route(*a, **kw)
         return rec["routes"]
     out = dict(o=o, methods=METHODS[cfg["methods"]])
     meths = impl_methods(out["methods"])
+    if fail_at == "minimise" and meths:
+        first = meths[0]
+
+        def failing_method(table, target_length):
+            raise InjectedFault("minimise")
+        meths = [failing_method] + list(meths[1:])
     if cfg.get("methods_tuple"):
         meths = tuple(meths)
-    rkw = {"radius": cfg["radius"]}
+    rkw = {} if cfg["radius"] is None else {"radius": cfg["radius"]}
+    user_cs = o["user_cs"]
     # keyword arguments of the wrappers that are only named when they differ from the default / when asked to
     wkw = {}
     if custom["cores"] or cfg.get("kwargs_style") == "dict":
@@ -571,7 +794,7 @@ def run_pipeline(prob):
     if custom["sdram"] or cfg.get("kwargs_style") == "dict":
         wkw["sdram_resource"] = sdram_id
     try:
-        with warnings.catch_warnings():
+        with warnings.catch_warnings(), common.cpu_limit(cpu_budget(prob)):
             warnings.simplefilter("ignore")
             if cfg["api"] == "wrapper":
                 out["stage"] = "wrapper"
@@ -579,10 +802,19 @@ def run_pipeline(prob):
                     wkw["sram_resource"] = sram_id
                 if cfg.get("kwargs_style") == "dict":
                     wkw["allocate_kwargs"] = {}
-                _, _, _, final = pr.place_and_route_wrapper(
-                    o["vr"], o["apps"], o["nets"], o["net_keys"], o["sysinfo"], o["user_cs"],
-                    place=rec_place, place_kwargs=pkw, allocate=rec_alloc, route=rec_route,
-                    route_kwargs=rkw, minimise_tables_methods=meths, **wkw)
+                if not (omit and out["methods"] == ["rd", "oc"] and fail_at != "minimise"):
+                    wkw["minimise_tables_methods"] = meths
+                if not (omit and not rkw):
+                    wkw["route_kwargs"] = rkw
+                if omit and not user_cs:
+                    # `constraints` left at its default
+                    _, _, _, final = pr.place_and_route_wrapper(
+                        o["vr"], o["apps"], o["nets"], o["net_keys"], o["sysinfo"],
+                        place=rec_place, place_kwargs=pkw, allocate=rec_alloc, route=rec_route, **wkw)
+                else:
+                    _, _, _, final = pr.place_and_route_wrapper(
+                        o["vr"], o["apps"], o["nets"], o["net_keys"], o["sysinfo"], user_cs,
+                        place=rec_place, place_kwargs=pkw, allocate=rec_alloc, route=rec_route, **wkw)
                 out["targets"] = build_routing_table_target_lengths(o["sysinfo"])
                 out["tables0"] = routing_tree_to_tables(rec["routes"], o["net_keys"])
             elif cfg["api"] == "deprecated":
@@ -608,13 +840,24 @@ def run_pipeline(prob):
                         cs = build_core_constraints(o["sysinfo"]) + o["user_cs"]
                 else:
                     machine, cs = o["machine"], o["cs"]
+                allkw = cfg.get("kwargs_style") == "dict" and omit
                 out["stage"] = "place"
-                rec_place(o["vr"], o["nets"], machine, cs, **pkw)
+                if allkw:
+                    rec_place(vertices_resources=o["vr"], nets=o["nets"], machine=machine, constraints=cs, **pkw)
+                else:
+                    rec_place(o["vr"], o["nets"], machine, cs, **pkw)
                 out["stage"] = "allocate"
-                rec_alloc(o["vr"], o["nets"], machine, cs, rec["placements"])
+                if allkw:
+                    rec_alloc(vertices_resources=o["vr"], nets=o["nets"], machine=machine, constraints=cs,
+                              placements=rec["placements"])
+                else:
+                    rec_alloc(o["vr"], o["nets"], machine, cs, rec["placements"])
                 out["stage"] = "route"
                 how = cfg.get("route_call", "pos")
-                if how == "omit" and not custom["cores"]:
+                if allkw:
+                    rec_route(vertices_resources=o["vr"], nets=o["nets"], machine=machine, constraints=cs,
+                              placements=rec["placements"], allocations=rec["allocations"], core_resource=core_id, **rkw)
+                elif how == "omit" and not custom["cores"]:
                     rec_route(o["vr"], o["nets"], machine, cs, rec["placements"], rec["allocations"], **rkw)
                 elif how == "kw":
                     rec_route(o["vr"], o["nets"], machine, cs, rec["placements"], allocations=rec["allocations"],
@@ -641,11 +884,33 @@ def run_pipeline(prob):
                         out["targets"] = {c: target_for(cfg, len(t)) for c, t in out["tables0"].items()}
                     else:
                         out["targets"] = cfg["target"]
-                    final = minimise_tables(out["tables0"], out["targets"], meths)
+                    tabs = out["tables0"]
+                    if cfg.get("subclass"):
+                        # the caller's tables hold instances of a subclass of RoutingTableEntry
+                        RTE = subclasses()["RTE"]
+                        tabs = {c: [RTE(*e) for e in t] for c, t in tabs.items()}
+                    if coll == 2:
+                        tabs = collections.OrderedDict(tabs)
+                    tg = out["targets"]
+                    if isinstance(tg, dict) and coll == 1:
+                        d = collections.defaultdict(lambda: None)
+                        d.update(tg)
+                        tg = d
+                    if omit and out["methods"] == ["rd", "oc"] and fail_at != "minimise":
+                        final = minimise_tables(tabs, tg)          # `methods` left at its default
+                    elif cfg.get("kwargs_style") == "dict":
+                        final = minimise_tables(routing_tables=tabs, target_lengths=tg, methods=meths)
+                    else:
+                        final = minimise_tables(tabs, tg, meths)
         out["status"] = "ok"
         out["tables1"] = final
     except (ImportError, SyntaxError):
         raise
+    except common.ImplHang as e:
+        _HANGS[0] += 1
+        out["status"] = "DidNotReturn"
+        out["error"] = e
+        out["traceback"] = str(e)
     except Exception as e:      # noqa
         name = type(e).__name__
         out["status"] = name
@@ -669,6 +934,12 @@ def tree_c10(node):
     for r, ch in node.children:
         ks.append([None if r is None else int(r), tree_c10(ch) if isinstance(ch, RoutingTree) else None])
     return {"c": [node.chip[0], node.chip[1]], "k": ks}
+
+
+def int_leaves(tree, vinv):
+    """the vertices on the leaves of a nested tree (c03.nest) back to the problem's vertex numbers"""
+    x, y, subs, leaves = tree
+    return [x, y, [[d, int_leaves(t, vinv)] for d, t in subs], [[r, vinv[v]] for r, v in leaves]]
 
 
 def tree_c03(node, budget):
@@ -714,7 +985,9 @@ def expected(prob, out):
     """per net: (source chip, cores [[x,y,p]], exits [[x,y,l]]) from placements/allocations/constraints only"""
     Cores = out["o"]["ids"][0]        # the cores resource identifier the caller named
     dev = {d[0]: d for d in prob["devices"]}
-    pl, al = out["placements"], out["allocations"]
+    V = out["o"]["V"]
+    pl = {v: out["placements"][obj] for v, obj in V.items() if obj in out["placements"]}
+    al = {v: out["allocations"][obj] for v, obj in V.items() if obj in out["allocations"]}
     res = []
     for s, sinks, wt, key, mask in prob["nets"]:
         cores, exits = set(), set()
@@ -746,7 +1019,7 @@ def lean_requests(prob, out, rng):
     routes = out["routes"]
     exp = expected(prob, out)
     # 1. the oracle: deliver on the final tables
-    t1 = tables_c04(out["tables1"])
+    t1 = out["_t1"] = tables_c04(out["tables1"])
     queries = []
     qmeta = []
     for i, (n, p) in enumerate(zip(nets, prob["nets"])):
@@ -757,10 +1030,14 @@ def lean_requests(prob, out, rng):
                      dev=[[d[1], d[2], d[3]] for d in prob["devices"]], queries=queries))
     idx.append(("deliver", qmeta))
     # 1b. same packets on the unminimised tables (localises a failure to the minimiser)
-    t0 = tables_c04(out["tables0"])
+    t0 = out["_t0"] = tables_c04(out["tables0"])
     reqs.append(dict(mj, suite="c01", op="deliver", tables=[[c[0], c[1], t] for c, t in t0.items()],
                      dev=[[d[1], d[2], d[3]] for d in prob["devices"]], queries=queries))
     idx.append(("deliver0", qmeta))
+    if prob.get("scale") or prob.get("light"):
+        # far beyond the usual size / inside a history: the delivery oracle only (the stage ties are exercised by
+        # the ordinary stream)
+        return reqs, idx
     # 2. C10 model on the implementation's trees
     c10nets = [{"key": p[3], "mask": p[4], "tree": tree_c10(routes[n])} for n, p in zip(nets, prob["nets"])]
     impl0 = {"ok": [[list(c), [c10.canon_entry(e) for e in es]] for c, es in out["tables0"].items()]}
@@ -771,7 +1048,8 @@ def lean_requests(prob, out, rng):
     # 2b. the C01 bridge C03 tree -> C10 tree -> C10 tables -> C04 entries
     c03nets = []
     for n, p in zip(nets, prob["nets"]):
-        c03nets.append({"key": p[3], "mask": p[4], "tree": tree_c03(routes[n], [count_nodes(routes[n]) + 2])})
+        c03nets.append({"key": p[3], "mask": p[4],
+                        "tree": int_leaves(tree_c03(routes[n], [count_nodes(routes[n]) + 2]), out["o"]["Vinv"])})
     reqs.append({"suite": "c01", "op": "tables_of_trees", "nets": c03nets})
     idx.append(("c01.bridge", t0))
     # 3. C04 model on the implementation's tables
@@ -788,17 +1066,17 @@ def lean_requests(prob, out, rng):
                                    for ci, c in enumerate(chips)]})
             idx.append(("c04.mts", chips))
     # 4. stage hypotheses of pipeline_delivery on the implementation's intermediate results
+    V = out["o"]["V"]
     for i, (n, p) in enumerate(zip(nets, prob["nets"])):
-        pl = out["placements"]
+        pl = {v: out["placements"][obj] for v, obj in V.items() if obj in out["placements"]}
         sinks = []
         for v in p[1]:
             x, y = pl[v]
-            e = [e for e in exp[i][2] if False]
             dv = [d for d in prob["devices"] if d[0] == v]
             if dv:
                 sinks.append([v, x, y, 2, dv[0][3], 0])
             else:
-                sl = out["allocations"].get(v, {}).get(out["o"]["ids"][0])
+                sl = out["allocations"].get(V[v], {}).get(out["o"]["ids"][0])
                 sinks.append([v, x, y, 0, 0, 0] if sl is None else [v, x, y, 1, sl.start, sl.stop])
         reqs.append(dict(mj, suite="c03", op="valid_tree", sinks=sinks, source=list(pl[p[0]]),
                          tree=c03nets[i]["tree"]))
@@ -812,8 +1090,8 @@ def lean_requests(prob, out, rng):
 def judge(prob, out, replies, idx):
     """-> (findings, tags, nontrivial); findings = [(kind, key, what)] with kind in {violation, mismatch}"""
     findings, tags = [], []
-    t0 = tables_c04(out["tables0"])
-    t1 = tables_c04(out["tables1"])
+    t0 = out["_t0"] if "_t0" in out else tables_c04(out["tables0"])
+    t1 = out["_t1"] if "_t1" in out else tables_c04(out["tables1"])
     bad0 = set()
     for (what, meta), r in zip(idx, replies):
         if "proto_error" in r if isinstance(r, dict) else False:
@@ -889,13 +1167,15 @@ def minfailed_model_check(prob, out):
     return req, want
 
 
-def eval_problems(ctx, probs, register=True):
-    """run pipelines, one Lean batch for all; returns list of (prob, status, findings)"""
+def eval_problems(ctx, probs, register=True, runner=None, after=None):
+    """run pipelines, one Lean batch for all; returns list of (prob, status, findings).  `runner(prob)` replaces the
+    plain call of the pipeline (histories: the caller's objects live on between calls); `after(prob, out)` runs once
+    the Lean requests for this run have been written down (what the caller does with the results afterwards)"""
     runs = []
     reqs, spans = [], []
     for prob in probs:
         t = time.time()
-        out = run_pipeline(prob)
+        out = (runner or run_pipeline)(prob)
         out["wall"] = time.time() - t
         r, idx = [], []
         extra = None
@@ -907,6 +1187,8 @@ def eval_problems(ctx, probs, register=True):
         spans.append((len(reqs), len(reqs) + len(r), idx))
         reqs += r
         runs.append(out)
+        if after is not None:
+            after(prob, out)
     replies = ctx.lean(reqs) if reqs else []
     results = []
     for prob, out, (a, b, idx) in zip(probs, runs, spans):
@@ -925,6 +1207,20 @@ def eval_problems(ctx, probs, register=True):
                 if r != idx[0][1]:
                     findings.append(("mismatch", "c01.c04-minfailed",
                                      "MinimisationFailedError %r but the C04 model says %s" % (idx[0][1], str(r)[:200])))
+        elif st == "DidNotReturn":
+            # the models of the sequential family, allocate, route, routing_tree_to_tables and the minimisers are
+            # proved to terminate (seqPlace_terminates, alloc_only_failure, route_only_failure, tables_total,
+            # minimiseTable_total): an implementation call that does not return there is a finding; the annealer's
+            # schedule, the RCM order functions and the random placer's draws are not covered by a theorem
+            in_place = "placements" not in out
+            what = "the pipeline did not return (%s) at stage %s%s" % (
+                out.get("traceback"), out.get("stage"), ", inside the placer" if in_place else "")
+            if in_place and prob["cfg"]["placer"] in ("sa-python", "sa-c", "rcm", "rand"):
+                findings.append(("mismatch", "c01.did-not-return-unproved-placer", what))
+            else:
+                findings.append(("violation", "did-not-return", what))
+        elif st == "InjectedFault":
+            tags.append("injected_fault_at_" + str(out["error"]))
         elif st not in DOCUMENTED:
             findings.append(("mismatch", "c01.pipeline-exception",
                              "pipeline raised undocumented %s at stage %s: %s" % (st, out.get("stage"), out.get("traceback", "")[-600:])))
@@ -937,7 +1233,7 @@ def eval_problems(ctx, probs, register=True):
 def register_result(ctx, prob, st, findings, tags, nontriv, out):
     cfg = prob["cfg"]
     ctx.traces += 1
-    ctx.tag("status_" + st, "placer_" + cfg["placer"], "api_" + cfg["api"], "radius_%d" % cfg["radius"],
+    ctx.tag("status_" + st, "placer_" + cfg["placer"], "api_" + cfg["api"], "radius_%s" % (cfg["radius"],),
             "methods_" + cfg["methods"], "target_%s" % (cfg["target"],), *tags)
     res = cfg.get("res") or {}
     ctx.tag("core_resource_" + ("default" if res.get("cores") is None else "custom_" + res["cores"][0]),
@@ -952,6 +1248,13 @@ def register_result(ctx, prob, st, findings, tags, nontriv, out):
         ctx.tag("manual_route_call_" + cfg.get("route_call", "pos"), "manual_tables_api_" + cfg.get("tables_api", "rt2t"))
     if cfg.get("apps"):
         ctx.tag("with_vertices_applications")
+    ctx.tag("vertex_kind_" + (cfg.get("vkind") or "int"), "collections_variant_%d" % (cfg.get("coll") or 0),
+            "sdram_around_2^%s" % cfg.get("big") if cfg.get("big") else "sdram_ordinary")
+    for flag in ("subclass", "states", "memvar", "omit", "big_weight"):
+        if cfg.get(flag):
+            ctx.tag("option_" + flag)
+    if cfg.get("omit") and cfg.get("kwargs_style") == "dict" and cfg["api"] in ("manual", "manual-sysinfo"):
+        ctx.tag("stages_called_by_keyword")
     if st != "ok":
         ctx.tag("fail_%s_at_%s" % (st, out.get("stage")))
     viol = {}
@@ -1039,9 +1342,10 @@ RES_INDEX = ("Cores", "SDRAM", "SRAM")          # resource numbering of the mode
 
 
 def pipe_cfg(rng):
-    return dict(placer="sequential", radius=rng.choice(RADII), methods=rng.choice(["default", "default", "rd", "oc", "none"]),
+    return dict(placer="sequential", radius=rng.choice([0, 1, 2, 20, True, None]), methods=rng.choice(["default", "default", "rd", "oc", "none"]),
                 target=rng.choice([None, None, None, "large", "large", "exact", "small", 0]), target_dict=rng.random() < 0.5,
-                api="manual", res=gen_res_ids(rng))
+                api="manual", res=gen_res_ids(rng),
+                **{k: v for k, v in gen_kinds(rng).items() if k in ("vkind", "subclass", "coll", "big", "memvar", "big_weight")})
 
 
 def gen_pipe_problem(rng, sizes, faulty=False):
@@ -1100,14 +1404,17 @@ def run_manual_recorded(prob):
     out = dict(o=o, methods=METHODS[cfg["methods"]], per_net=per_net, tape=tape)
     geometry.random = rutils.random = fake
     ner.ner_net, ner.copy_and_disconnect_tree = w_ner_net, w_copy
+    from . import common
+    lim = common.cpu_limit(cpu_budget(prob))
     try:
+        lim.__enter__()
         out["stage"] = "place"
         out["placements"] = sequential.place(o["vr"], o["nets"], o["machine"], o["cs"])
         out["stage"] = "allocate"
         out["allocations"] = pr.allocate(o["vr"], o["nets"], o["machine"], o["cs"], out["placements"])
         out["stage"] = "route"
         out["routes"] = pr.route(o["vr"], o["nets"], o["machine"], o["cs"], out["placements"], out["allocations"], Cores,
-                                 radius=cfg["radius"])
+                                 **({} if cfg["radius"] is None else {"radius": cfg["radius"]}))
         out["stage"] = "tables"
         out["tables0"] = routing_tree_to_tables(out["routes"], o["net_keys"])
         out["stage"] = "minimise"
@@ -1123,6 +1430,11 @@ def run_manual_recorded(prob):
         out["status"] = "ok"
     except (ImportError, SyntaxError):
         raise
+    except common.ImplHang as e:
+        _HANGS[0] += 1
+        out["status"] = "DidNotReturn"
+        out["error"] = e
+        out["traceback"] = str(e)
     except Exception as e:      # noqa
         out["status"] = type(e).__name__
         out["error"] = e
@@ -1130,6 +1442,7 @@ def run_manual_recorded(prob):
             import traceback
             out["traceback"] = traceback.format_exc()[-1500:]
     finally:
+        lim.__exit__()
         geometry.random, rutils.random, ner.ner_net, ner.copy_and_disconnect_tree = orig
     return out
 
@@ -1141,7 +1454,8 @@ def pipe_request(prob, out):
     o = out["o"]
     Cores, SDRAM, SRAM = o["ids"]
     ridx = {Cores: 0, SDRAM: 1, SRAM: 2}
-    vr = [[v, [[ridx[r], int(a)] for r, a in d.items()]] for v, d in o["vr"].items()]
+    Vinv = o["Vinv"]
+    vr = [[Vinv[v], [[ridx[r], int(a)] for r, a in d.items()]] for v, d in o["vr"].items()]
     m = o["machine"]
     vec = lambda d: [int(d[Cores]), int(d[SDRAM]), int(d[SRAM])]
     cs = []
@@ -1150,11 +1464,11 @@ def pipe_request(prob, out):
             cs.append({"t": "res", "r": ridx[c.resource], "start": c.reservation.start, "stop": c.reservation.stop,
                        "c": None if c.location is None else list(c.location)})
         elif isinstance(c, LocationConstraint):
-            cs.append({"t": "loc", "v": c.vertex, "c": list(c.location)})
+            cs.append({"t": "loc", "v": Vinv[c.vertex], "c": list(c.location)})
         elif isinstance(c, RouteEndpointConstraint):
-            cs.append({"t": "ep", "v": c.vertex, "route": int(c.route)})
+            cs.append({"t": "ep", "v": Vinv[c.vertex], "route": int(c.route)})
         elif isinstance(c, SameChipConstraint):
-            cs.append({"t": "same", "vs": list(c.vertices)})
+            cs.append({"t": "same", "vs": [Vinv[v] for v in c.vertices]})
     per = out["per_net"]
     tape = out["tape"]
     oracle = []
@@ -1177,7 +1491,7 @@ def pipe_request(prob, out):
             "exc": [[list(c), vec(d)] for c, d in m.chip_resource_exceptions.items()],
             "dead": sorted(map(list, m.dead_chips)), "dead_links": [[x, y, int(l)] for x, y, l in sorted(m.dead_links)],
             "cs": cs, "nets": [[n[0], list(n[1]), n[3], n[4]] for n in prob["nets"]], "core_res": 0,
-            "placer": {"t": "seq", "vo": None, "co": None}, "radius": prob["cfg"]["radius"],
+            "placer": {"t": "seq", "vo": None, "co": None}, "radius": radius_value(prob["cfg"]["radius"]),
             "oracle": oracle, "minimise": mini}
 
 
@@ -1219,9 +1533,10 @@ def eval_pipe_problems(ctx, probs):
             else:
                 mo = r["ok"]
                 pl = [[v, [c[0], c[1]]] for v, c in mo["placement"]]
-                ipl = [[v, list(c)] for v, c in out["placements"].items()]
+                Vinv = out["o"]["Vinv"]
+                ipl = [[Vinv[v], list(c)] for v, c in out["placements"].items()]
                 al = {v: sorted(map(tuple, va)) for v, va in mo["alloc"]}
-                ial = {v: sorted((ridx[r_], sl.start, sl.stop) for r_, sl in va.items())
+                ial = {Vinv[v]: sorted((ridx[r_], sl.start, sl.stop) for r_, sl in va.items())
                        for v, va in out["allocations"].items()}
                 t0 = tables_c04(out["tables0"])
                 t1 = tables_c04(out["tables1"])
@@ -1249,6 +1564,10 @@ def eval_pipe_problems(ctx, probs):
                     tags.append("pipe_tables_changed")
                 if any(pn["order"] for pn in out["per_net"]):
                     tags.append("pipe_repaired")
+        elif st == "DidNotReturn":
+            ctx.violation("did-not-return", "hand-chained pipeline (sequential placer) did not return at stage %s: %s; "
+                          "every stage of the model pipeline is proved to terminate" % (out.get("stage"), out.get("traceback")),
+                          prob)
         else:
             want = pipe_expected_error(out)
             if want is None:
@@ -1590,6 +1909,10 @@ def register_seq_result(ctx, seq, k, res):
             note = (" [history-dependent: failed after earlier pipeline runs in this process, passes alone; the sequence "
                     "alone in a fresh interpreter did not reproduce it (the state came from other runs of this process)]")
             ctx.tag("seq_violation_not_reproduced")
+            # observed in this process only: there is no input that reproduces it, so it is recorded as a broken
+            # correspondence (the check fails, 'no failing input found'), not as a violation with a useless replay
+            ctx.mismatch("c01.failed-after-other-runs-of-this-process", what + note, case)
+            continue
         done.add(key)
         ctx.violation(key, what + note, case)
     ctx.case(case, True)
@@ -1629,6 +1952,421 @@ def eval_sequences(ctx, nseq):
                 if k > 0 and merges_of(out):
                     ctx.tag("seq_later_run_merged")
                 register_seq_result(ctx, q["probs"], k, res)
+
+
+# --------------------------------------------------------------------------------------------
+# SCALE: a handful of cases far beyond the usual size (judged by the delivery oracle only)
+# --------------------------------------------------------------------------------------------
+SCALE_KINDS = ["long-1xN", "long-Nx1", "long-2xN", "fanout", "many-nets", "long-repaired"]
+
+
+def gen_scale_problem(rng, kind, lengths=(1500, 2048, 3000, 4000)):
+    cfg = gen_cfg(rng)
+    cfg.update(placer=rng.choice(["sequential", "breadth_first", "rand"]), pvar=0, radius=rng.choice([0, 2, 20, None]),
+               api=rng.choice(["manual", "manual", "manual-sysinfo", "wrapper"]), target=None, target_dict=False,
+               methods=rng.choice(["default", "rd"]), tables_api="rt2t", vkind=rng.choice(["int", "str", "tuple"]),
+               big=None, memvar=False)
+    prob = dict(dead_chips=[], ncores=18, exc=[], busy=[], sdram=100000, rtr=1023, rtr_exc=[], devices=[], cs=[],
+                seed=rng.randrange(1 << 30), c03_rseed=None, cfg=cfg, scale=kind, fill=3)
+    if kind.startswith("long"):
+        n = rng.choice(list(lengths))
+        w, h = {"long-1xN": (1, n), "long-Nx1": (n, 1), "long-2xN": (2, n), "long-repaired": (2, n)}[kind]
+        dl = set()
+        if rng.random() < 0.6:
+            # a mesh: every link that leaves the rectangle is dead (trees as deep as the machine is long)
+            for x in range(w):
+                for y in range(h):
+                    for l, (dx, dy) in enumerate(VECS):
+                        if not (0 <= x + dx < w and 0 <= y + dy < h):
+                            dl.add((x, y, l))
+        if kind == "long-repaired":
+            # the north link of both columns is dead near one end: the repair has to deal with disconnected subtrees
+            # about as deep as the machine is long
+            for x in range(w):
+                y = rng.randrange(1, max(2, h // 10))
+                dl.add((x, y, 2))
+                dl.add((x, y + 1, 5))
+        prob.update(w=w, h=h, dead_links=sorted(map(list, dl)))
+        long_side = max(w, h)
+        spots = sorted(set([0, long_side - 1, long_side // 2] + [rng.randrange(long_side) for _ in range(3)]))
+        vr, cs = [], []
+        for i, pos in enumerate(spots):
+            vr.append([i, rng.choice([1, 2]), 0])
+            c = [pos, 0] if w >= h else [rng.randrange(w), pos]
+            cs.append({"t": "loc", "v": i, "c": c})
+        nets = [[0, list(range(1, len(vr))), 1], [len(vr) - 1, [0], 1], [len(vr) // 2, [0, len(vr) - 1], 1]]
+        prob.update(vr=vr, cs=cs)
+    elif kind == "fanout":
+        w = h = 8
+        prob.update(w=w, h=h, dead_links=[], busy=[[x, y, [0]] for x in range(w) for y in range(h)])
+        nv = 420
+        vr = [[i, 1 if i % 50 else rng.choice([None, 0, 2]), 0] for i in range(nv)]
+        sinks = rng.sample(range(nv), 300)
+        nets = [[0, sinks, 1], [1, rng.sample(range(nv), 257), 1], [2, [rng.randrange(nv) for _ in range(300)], 1]]
+        prob.update(vr=vr)
+    else:
+        w, h = rng.choice([(2, 2), (3, 3), (4, 2)])
+        prob.update(w=w, h=h, dead_links=[], busy=[[x, y, [0]] for x in range(w) for y in range(h)])
+        vr = [[i, 1, 0] for i in range(12)]
+        groups = [[rng.randrange(12), [rng.randrange(12) for _ in range(rng.choice([1, 2, 3]))]] for _ in range(3)]
+        nets = [list(groups[i % 3]) + [1] for i in range(rng.choice([257, 300, 400]))]
+        nets = [[g[0], list(g[1]), 1] for g in nets]
+        prob.update(vr=vr)
+    keys = gen_keys(rng, len(nets))
+    prob["nets"] = [[s_, k, wt, keys[i][0], keys[i][1]] for i, (s_, k, wt) in enumerate(nets)]
+    return prob
+
+
+def gen_empty_problem(rng, variant):
+    """the other end of the scale: nothing to place / nothing to route"""
+    prob = gen_problem(rng, [(1, 1), (2, 2), (3, 1)], gen_cfg(rng), faulty=False)
+    if variant == "no-vertices":
+        prob.update(vr=[], nets=[], devices=[], cs=[])
+    elif variant == "no-nets":
+        prob["nets"] = []
+    else:
+        prob["nets"] = [[n[0], [], n[2], n[3], n[4]] for n in prob["nets"]]      # nets without sinks only
+    prob["edge"] = variant
+    return prob
+
+
+def eval_scale(ctx, n):
+    for variant in ("no-vertices", "no-nets", "no-sinks"):
+        res = eval_problems(ctx, [gen_empty_problem(ctx.rng, variant)], register=True)
+        ctx.tag("edge_" + variant, "edge_status_" + res[0][1])
+    for i in range(n):
+        # every third case repairs a deep tree, every third is a long machine, every third has hundreds of sinks / nets
+        kind = [["long-repaired"], ["long-1xN", "long-Nx1", "long-2xN"], ["fanout", "many-nets"]][i % 3]
+        kind = ctx.rng.choice(kind)
+        prob = gen_scale_problem(ctx.rng, kind, (1500, 2048) if ctx.quick else (1500, 2048, 3000, 4000))
+        t = time.time()
+        res = eval_problems(ctx, [prob], register=True)
+        ctx.tag("scale_" + kind, "scale_status_" + res[0][1])
+        if time.time() - t > 20:
+            ctx.tag("scale_case_over_20s")
+
+
+# --------------------------------------------------------------------------------------------
+# HISTORIES: one caller, one process - calls repeated, twins in both orders, two applications alternately, the
+# caller editing what it passed and what it was handed back, keeping earlier results, callbacks that fail
+# --------------------------------------------------------------------------------------------
+HIST_SIZES = [(1, 1), (2, 1), (1, 2), (2, 2), (3, 2), (3, 3), (4, 4), (5, 1), (6, 4)]
+HIST_KINDS = ["repeat", "twins", "twins", "edit-passed", "edit-passed", "scribble", "keep", "alternate", "fault"]
+TWIN_ASPECTS = ["net-drop", "sink-add", "sink-drop", "dead-link", "dead-link", "dead-link", "cores", "option", "swap-keys",
+                "busy-core"]
+
+
+def reload_rig():
+    """forget the rig modules: a history starts with freshly imported modules, so that a replay of the history in a
+    new process sees what the run saw (module-level / class-level / default-argument state)"""
+    import sys
+    for k in [k for k in sys.modules if k == "rig" or k.startswith("rig.")]:
+        del sys.modules[k]
+    _SUBCLASSES.clear()
+
+
+def gen_twin(rng, prob):
+    """a problem equal to `prob` in all but one aspect; -> (twin, aspect)"""
+    import copy
+    tw = copy.deepcopy(prob)
+    tw["seed"] = prob["seed"]
+    for _ in range(8):
+        a = rng.choice(TWIN_ASPECTS)
+        nets = tw["nets"]
+        nv = len(tw["vr"])
+        if a == "net-drop" and len(nets) > 1:
+            del nets[rng.randrange(len(nets))]
+        elif a == "sink-add" and nets:
+            nets[rng.randrange(len(nets))][1].append(rng.randrange(nv))
+        elif a == "sink-drop" and any(n[1] for n in nets):
+            n = rng.choice([n for n in nets if n[1]])
+            del n[1][rng.randrange(len(n[1]))]
+        elif a == "dead-link":
+            # the fault map differs: one more dead link, or (half of the time) 15% of the links
+            dl = set(map(tuple, tw["dead_links"]))
+            n0 = len(dl)
+            for _ in range(1 if rng.random() < 0.3 else max(2, (6 * tw["w"] * tw["h"]) * 15 // 100)):
+                dl.add((rng.randrange(tw["w"]), rng.randrange(tw["h"]), rng.randrange(6)))
+            if len(dl) == n0:
+                continue
+            tw["dead_links"] = sorted(map(list, dl))
+        elif a == "cores":
+            cand = [v for v in tw["vr"] if v[1] and not any(d[0] == v[0] for d in tw["devices"])]
+            if not cand:
+                continue
+            v = rng.choice(cand)
+            v[1] = max(0, v[1] + rng.choice([-1, 1]))
+        elif a == "option":
+            f = rng.choice(["methods", "target", "radius", "placer"])
+            new = {"methods": rng.choice(["default", "rd", "oc", "none"]), "target": rng.choice(TARGETS),
+                   "radius": rng.choice(RADII), "placer": rng.choice(PLACERS)}[f]
+            if new == tw["cfg"][f] or (f == "placer" and new == "sa-c" and tw["cfg"].get("big")):
+                continue
+            tw["cfg"][f] = new
+        elif a == "swap-keys" and len(nets) > 1:
+            i, j = rng.sample(range(len(nets)), 2)
+            nets[i][3], nets[i][4], nets[j][3], nets[j][4] = nets[j][3], nets[j][4], nets[i][3], nets[i][4]
+        elif a == "busy-core":
+            dead = set(map(tuple, tw["dead_chips"]))
+            live = [(x, y) for x in range(tw["w"]) for y in range(tw["h"]) if (x, y) not in dead]
+            c = rng.choice(live)
+            k = cores_map(tw)[c]
+            b = [e for e in tw["busy"] if (e[0], e[1]) == c]
+            core = rng.randrange(k)
+            if b:
+                if core in b[0][2]:
+                    continue
+                b[0][2] = sorted(b[0][2] + [core])
+            else:
+                tw["busy"].append([c[0], c[1], [core]])
+        else:
+            continue
+        return tw, a
+    return tw, "none"
+
+
+def gen_history(rng):
+    kind = rng.choice(HIST_KINDS)
+    cfg = gen_cfg(rng)
+    if rng.random() < 0.4:
+        cfg["api"] = rng.choice(["wrapper", "manual-sysinfo"])
+    A = gen_problem(rng, HIST_SIZES, cfg, faulty=rng.random() < 0.2)
+    A["nets"] = A["nets"][:12]
+    A["light"] = True
+    A2, aspect = gen_twin(rng, A)
+    probs = [A, A2]
+    new, same, edit = "new", "same", "edit"
+
+    def st(p, objs, **kw):
+        d = {"p": p, "objs": objs}
+        d.update(kw)
+        return d
+    if kind == "repeat":
+        steps = [st(0, new), st(0, same), st(0, same), st(1, edit)]
+    elif kind == "twins":
+        order = rng.choice([[0, 1], [1, 0], [0, 1, 0], [1, 0, 1]])
+        steps = [st(p, new, reuse_ids=True) for p in order]
+    elif kind == "edit-passed":
+        # the caller walks between the application and two twins of it, editing its objects in place every time
+        A3, aspect3 = gen_twin(rng, A)
+        probs = [A, A2, A3]
+        aspect = "%s,%s" % (aspect, aspect3)
+        cur = rng.randrange(3)
+        steps = [st(cur, new)]
+        for _ in range(rng.choice([3, 4, 5, 6])):
+            cur = rng.choice([p for p in range(3) if p != cur])
+            steps.append(st(cur, edit))
+    elif kind == "scribble":
+        steps = [st(0, new, scribble=True), st(0, same, scribble=True), st(1, edit, scribble=True), st(1, same)]
+    elif kind == "keep":
+        steps = [st(0, new), st(1, new, reuse_ids=True), st(0, same), st(1, same), st(0, edit)]
+    elif kind == "alternate":
+        B = gen_problem(rng, HIST_SIZES, gen_cfg(rng), faulty=False)
+        B["nets"] = B["nets"][:12]
+        B["light"] = True
+        probs = [A, B]
+        aspect = "other-application"
+        steps = [st(0, new), st(1, new), st(0, same), st(1, same)]
+        if rng.random() < 0.5:
+            steps += [st(0, same), st(1, same)]
+    else:
+        stages = ["place", "allocate", "route", "minimise"]
+        steps = [st(0, new, fail=rng.choice(stages)), st(0, same), st(1, edit, fail=rng.choice(stages)), st(1, same)]
+    return {"kind": kind, "aspect": aspect, "probs": probs, "steps": steps}
+
+
+def edit_in_place(old, new):
+    """the caller edits, in place, every mutable object it passed last time so that it now describes `new`"""
+    if set(old) != set(new) or type(old.get("machine")) is not type(new.get("machine")):
+        return new
+    for k in list(old["vr"]):
+        if k not in new["vr"]:
+            del old["vr"][k]
+    for k, d in new["vr"].items():
+        if k in old["vr"]:
+            old["vr"][k].clear()
+            old["vr"][k].update(d)
+        else:
+            old["vr"][k] = d
+    onets, nnets = old["nets"], new["nets"]
+    for i, n in enumerate(nnets):
+        if i < len(onets):
+            onets[i].source, onets[i].weight = n.source, n.weight
+            onets[i].sinks[:] = n.sinks
+        else:
+            onets.append(n)
+    del onets[len(nnets):]
+    old["net_keys"].clear()
+    for on, nn in zip(onets, nnets):
+        old["net_keys"][on] = new["net_keys"][nn]
+    old["user_cs"][:] = new["user_cs"]
+    if "cs" in old:
+        old["cs"][:] = new["cs"]
+    if "machine" in old:
+        mo, mn = old["machine"], new["machine"]
+        mo.width, mo.height = mn.width, mn.height
+        mo.chip_resources.clear()
+        mo.chip_resources.update(mn.chip_resources)
+        mo.chip_resource_exceptions.clear()
+        mo.chip_resource_exceptions.update(mn.chip_resource_exceptions)
+        for attr in ("dead_chips", "dead_links"):
+            if isinstance(getattr(mo, attr), set):
+                getattr(mo, attr).clear()
+                getattr(mo, attr).update(getattr(mn, attr))
+            else:
+                setattr(mo, attr, getattr(mn, attr))
+    si = old["sysinfo"]
+    si.clear()
+    si.update(new["sysinfo"])
+    si.width, si.height = new["sysinfo"].width, new["sysinfo"].height
+    old["apps"].clear()
+    old["apps"].update(new["apps"])
+    old["V"], old["Vinv"] = new["V"], new["Vinv"]
+    return old
+
+
+def scribble(out):
+    """the caller edits, in place, everything it was handed back (nested objects included)"""
+    from rig.place_and_route.routing_tree import RoutingTree
+    for name in ("tables1", "tables0"):
+        for t in list(out[name].values()):
+            for e in t:
+                e.sources.clear()
+                e.sources.add(None)
+            del t[:]
+        out[name].clear()
+    todo = [t for t in out["routes"].values()]
+    seen = set()
+    while todo:
+        t = todo.pop()
+        if id(t) in seen:
+            continue
+        seen.add(id(t))
+        todo += [c for _, c in t.children if isinstance(c, RoutingTree)]
+        del t.children[:]
+        t.chip = (0, 0)
+    out["routes"].clear()
+    for d in list(out["allocations"].values()):
+        d.clear()
+    out["allocations"].clear()
+    out["placements"].clear()
+
+
+def snapshot(out):
+    """canonical form of what a run returned (kept by the caller, looked at again later)"""
+    vinv = out["o"]["Vinv"]
+    ids = list(out["o"]["ids"])
+    return (sorted((c, t) for c, t in tables_c04(out["tables1"]).items()),
+            sorted((vinv.get(v, -1), tuple(c)) for v, c in out["placements"].items()),
+            sorted((vinv.get(v, -1), sorted((ids.index(r) if r in ids else -1, sl.start, sl.stop) for r, sl in d.items()))
+                   for v, d in out["allocations"].items()))
+
+
+def eval_histories(ctx, hists):
+    plan = [(h, si) for h in hists for si in range(len(h["steps"]))]
+    pos = [0]
+    state = {}
+    kept = []
+    changed = []
+
+    def runner(prob):
+        h, si = plan[pos[0]]
+        st = h["steps"][si]
+        if si == 0:
+            reload_rig()
+            state.clear()
+            state["objs"] = {}
+            state["last"] = None
+        last = state["last"]
+        if st["objs"] == "same" and st["p"] in state["objs"]:
+            o = state["objs"][st["p"]]
+        elif st["objs"] == "edit" and last is not None:
+            o = edit_in_place(last, build(prob, reuse=last))
+            for k in [k for k, v in state["objs"].items() if v is o]:
+                del state["objs"][k]
+        else:
+            o = build(prob, reuse=last if st.get("reuse_ids") else None)
+        out = run_pipeline(prob, o=o, fail_at=st.get("fail"))
+        state["objs"][st["p"]] = o
+        state["last"] = o
+        return out
+
+    def after(prob, out):
+        h, si = plan[pos[0]]
+        st = h["steps"][si]
+        if out["status"] == "ok":
+            if st.get("scribble"):
+                scribble(out)
+            else:
+                kept.append((h, si, prob, out, snapshot(out)))
+        if si == len(h["steps"]) - 1:
+            # the caller looks again at every result it kept
+            for h2, sj, p2, o2, snap in kept:
+                if h2 is h and snapshot(o2) != snap:
+                    changed.append((h2, sj, p2, o2))
+            del kept[:]
+        pos[0] += 1
+    probs = [dict(h["probs"][h["steps"][si]["p"]]) for h, si in plan]
+    results = eval_problems(ctx, probs, register=False, runner=runner, after=after)
+    # results that changed after they were returned: judged again by the delivery oracle, as they are now
+    extra = {}
+    if changed:
+        reqs = []
+        for h, sj, p2, o2 in changed:
+            r, idx = lean_requests(dict(p2, light=True), o2, _random.Random(p2["seed"] ^ 0x77))
+            reqs.append((r[0], idx[0][1]))
+        reps = ctx.lean([r for r, _ in reqs])
+        for (h, sj, p2, o2), (r, qmeta), rep_ in zip(changed, reqs, reps):
+            bad = sorted(set(w for q in rep_ if isinstance(q, dict) and not q["ok"] for w in q["why"]))
+            extra[(id(h), sj)] = bad
+    fresh_n = [0]
+    for (h, si), res in zip(plan, results):
+        prob, st, findings, tags, nontriv, out = res
+        step = h["steps"][si]
+        ctx.traces += 1
+        hist_case = {"hist": dict(h, steps=h["steps"][:max(si + 1, len(h["steps"]) if (id(h), si) in extra else 0)])}
+        ctx.tag("hist_kind_" + h["kind"], "hist_step_objs_" + step["objs"], "hist_status_" + st, *tags)
+        if si == 0:
+            ctx.tag(*["hist_twin_aspect_" + a for a in str(h.get("aspect")).split(",")])
+        if step.get("scribble"):
+            ctx.tag("hist_results_scribbled")
+        if step.get("fail"):
+            ctx.tag("hist_fault_at_" + step["fail"], "hist_fault_" + ("raised" if st == "InjectedFault" else "not_reached"))
+        if (id(h), si) in extra:
+            ctx.tag("hist_kept_result_changed")
+            bad = extra[(id(h), si)]
+            ctx.mismatch("c01.kept-result-changed", "the tables / placements / allocations returned by run %d of a history "
+                         "(%s) changed after they were returned, during later calls" % (si + 1, h["kind"]), hist_case)
+            for why in bad:
+                ctx.violation(why, "the tables returned by run %d of a history changed after they were returned (later "
+                              "calls of the library with the caller's objects) and no longer deliver: %s" % (si + 1, why),
+                              hist_case)
+        viol = {}
+        for kind, key, what in findings:
+            if kind == "violation":
+                viol.setdefault(key, what)
+            else:
+                ctx.mismatch(key, what + " [run %d of a history of kind %s]" % (si + 1, h["kind"]), hist_case)
+        if viol:
+            alone = None
+            if fresh_n[0] < 4:
+                fresh_n[0] += 1
+                try:
+                    alone = fresh_failures(ctx, [prob])
+                except Exception:      # noqa
+                    alone = None
+            if alone is not None and set(viol) & alone:
+                ctx.tag("hist_violation_reproduced_alone")
+                register_result(ctx, prob, st, [f for f in findings if f[0] == "violation"], [], nontriv, out)
+                continue
+            for key, what in viol.items():
+                ctx.tag("hist_violation_history_dependent")
+                ctx.violation(key, what + " [run %d of a HISTORY of kind %s (%s): one caller, one process, objects %s%s; "
+                              "replay = the history]" % (si + 1, h["kind"], h.get("aspect"), step["objs"],
+                                                          "" if alone is None else "; the same run alone in a fresh "
+                                                          "interpreter passes"), hist_case)
+        if si == len(h["steps"]) - 1:
+            ctx.case({"hist": h}, True)
 
 
 # --------------------------------------------------------------------------------------------
@@ -1688,16 +2426,27 @@ def run(ctx):
         pprobs.append(gen_pipe_problem(ctx.rng, sz, faulty=(i % 4 == 3)))
     for i in range(0, len(pprobs), 50):
         eval_pipe_problems(ctx, pprobs[i:i + 50])
+    # histories: one caller, one process (rig re-imported at the start of each)
+    nh = ctx.scale(30, 300)
+    if ctx.extended:
+        nh *= 4
+    hists = [gen_history(ctx.rng) for _ in range(nh)]
+    for i in range(0, nh, 10):
+        eval_histories(ctx, hists[i:i + 10])
     # sequences of pipeline runs in one process with related key assignments
     nseq = ctx.scale(220, 2000)
     if ctx.extended:
         nseq *= 4
     eval_sequences(ctx, nseq)
+    # a handful of cases far beyond the usual size
+    eval_scale(ctx, ctx.scale(3, 12))
 
 
 def replay(ctx, payload):
     ctx.extra["rule"] = RULE
-    if "seq" in payload["case"]:
+    if "hist" in payload["case"]:
+        eval_histories(ctx, [payload["case"]["hist"]])
+    elif "seq" in payload["case"]:
         # a history-dependent finding: all runs of the sequence in this (fresh) process, each judged
         seq = payload["case"]["seq"]
         for k, prob in enumerate(seq):
